@@ -119,6 +119,9 @@ func NewTable(b *bytes.Buffer) (t Table, err error) {
 }
 
 func NewTableCustom(defs *[]RouteDef) (t Table, err error) {
+	if defs == nil {
+		return nil, errors.New("route: no route definitions")
+	}
 
 	t = make(Table)
 	for _, d := range *defs {
